@@ -60,6 +60,7 @@ def cases(draw, tier):
             "maxgap": draw(st.sampled_from([3600, 7200, 432000])),
             "unit": draw(st.sampled_from(UNITS)),
             "zone": draw(st.sampled_from(ZONES)),
+            "display": draw(st.sampled_from([False, False, True])),
             "regime": regime}
 
 
@@ -128,7 +129,7 @@ def oracle(case):
     idx = make_index(t0, secs, case["unit"], case["zone"])
     se = pd.Series(vals, index=idx)
     r = dutils.var2h(se, nbsec_per_period=P, maxgapsec=maxgap,
-                     rainfall=rainfall)
+                     rainfall=rainfall, display=case.get("display", False))
     labels = [f"unit:{case['unit']}", f"zone:{case['zone']}",
               f"regime:{case['regime']}", f"P:{P}",
               f"rainfall:{rainfall}"]
